@@ -351,7 +351,7 @@ def check_C04(res, ctx):
 
 def check_C13(res, ctx):
     from . import crashcheck
-    n = 24 if ctx.quick else 400
+    n = 24 if ctx.quick else 3000
 
     def job(i):
         rng = rng_for(ctx.seed, "C13", i)
@@ -362,7 +362,7 @@ def check_C13(res, ctx):
                "idx": rng.choice([1, 2, 3]), "io": io, "shards": 16}
         g = engine.Gen(rng, cfg, nkeys=5, weights={"reopen": 2, "merge": 1, "keys": 0, "fold": 0, "dump": 0, "stat": 0, "getabsent": 0,
                                                    "emptykey": 0, "get": 1, "sync": 5, "batch": 12}, max_val=rng.choice([200, 5000, 40000]))
-        ops = [o for o in g.history(30 if (ctx.quick or io == 1) else 60) if o.split()[0] not in ("dump", "stat", "files")]
+        ops = [o for o in g.history(30 if (ctx.quick or io == 1) else rng.choice([60, 100, 160])) if o.split()[0] not in ("dump", "stat", "files")]
         # only the write/sync event log is needed here: no crash images at all (from_op beyond the last op) - a merge adoption
         # over hundreds of tiny files has hundreds of crash points, each image a copy of the directory and several recoveries
         recs, err, rc = crashcheck.run_crash(ctx, ops, mode="points", cuts="none", dumpfiles=False, from_op=10 ** 9, timeout=(2400 if io == 1 else 900))
